@@ -96,7 +96,7 @@ def _judge(case, fixed_cuts=None):
                 prev = c
         fin = res["final"]
         if shuffled:
-            if problem["kind"] == "tabular" and fin["iteration"] < prev + LIMIT:
+            if problem["kind"] == "tabular" and fin["iteration"] < prev + LIMIT and sdesc["params"].get("jax_double_precision", True):
                 spec = problem["spec"]
                 gamma = float(sdesc["params"]["gamma"])
                 P, R = ref_mdp.dense(spec)
